@@ -676,8 +676,18 @@ macro_rules! impl_graph_traits {
                 &mut self,
                 n: <$graph_type<N, E, Ix> as GraphBase>::NodeId,
             ) -> Option<N> {
+                // Nothing to do (in particular not in the order) for a node that does not exist.
+                self.graph.node_weight(n)?;
+                let last = NodeIndex::new(self.graph.node_bound() - 1);
                 self.order_map.remove_node(n, &self.graph);
-                self.graph.remove_node(n)
+                let weight = self.graph.remove_node(n);
+                if self.graph.node_weight(n).is_some() {
+                    // The graph moved its last node into the freed index (`Graph` does):
+                    // its topological position now belongs to index `n`.
+                    let pos = self.order_map.get_position(last, &self.graph);
+                    self.order_map.set_position(n, pos, &self.graph);
+                }
+                weight
             }
         }
 
